@@ -106,13 +106,23 @@ def run(ctx):
     adv = adversary(1400 if not ctx.thorough else 20000, r)
     k7 = [Case("K7_WMA_adversary", [new_op(0, "WMA", (2, 0, 0, 0.0))] + [("n", 0, x) for x in adv], dump=(), meta={"ind": "WMA", "p": 2}),
           Case("K7_SMA_adversary", [new_op(0, "SMA", (2, 0, 0, 0.0))] + [("n", 0, x) for x in adv], dump=(), meta={"ind": "SMA", "p": 2})]
+    saw = []
+    for ind_ in ("SMA", "WMA", "SD", "MAD", "BB"):
+        for p_, tooth in ((5, 5), (6, 3), (3, 3)):
+            xs_ = [float(1 + (t_ % tooth)) for t_ in range(400)]
+            saw.append(Case("SAW_%s_p%d_tooth%d" % (ind_, p_, tooth), [new_op(0, ind_, (p_, 0, 0, 2.0 if ind_ == "BB" else 0.0))] + [("n", 0, x) for x in xs_],
+                            dump=(), meta={"ind": ind_, "p": p_, "saw": True}))
+    k7 = k7 + saw
     run_harness(ctx.binary, k7, "C13k7")
     t1 = coq_check_cases(k7, "C13k7")
     t2 = coq_check_cases(k7, "C13k7t2", checker="check_t2_window", extra_header="From TA Require Import XQ Run2.\n")
     for c, a, b in zip(k7, t1, t2):
         if a:
             viol.append(Violation("correspondence T1 fails on %s at op %d" % (c.cid, a), case=c, kind="correspondence"))
-        if b:
+        if b and c.meta.get("saw"):
+            viol.append(Violation("%s(%d): on the integer saw-tooth (every input equals the value it evicts) the output after %d inputs leaves tau(t)*maxmag of the exact window value"
+                                  % (c.meta["ind"], c.meta["p"], b - 1), case=c))
+        elif b:
             key = {"indicator": "WMA", "class": "rounding-aligned-adversary"} if c.meta["ind"] == "WMA" else None
             viol.append(Violation("%s(2): after %d inputs of the rounding-aligned stream the output leaves tau(t)*maxmag of the exact window value"
                                   % (c.meta["ind"], b - 1), case=c, finding_key=key))
